@@ -294,9 +294,9 @@ pub fn run(ctx: &Ctx, sh: &mut Shard) {
             check_extreme_scale(sh, t, e64, e32, false);
             continue;
         }
-        // one case in 200: many members on a grid against a partner near one of them (gen_many_members), or an operand of
+        // one case in 400: many members on a grid against a partner near one of them (gen_many_members), or an operand of
         // realistic size with a derived partner (gen_large_pair): the distance oracle is only O(n*m)
-        let (a, b, lat) = if k % 200 == 7 {
+        let (a, b, lat) = if k % 400 == 7 {
             let (a, b, cls) = if r.chance(1, 2) {
                 gen_many_members(&mut r)
             } else {
